@@ -148,7 +148,13 @@ def run_property(prop_mod, tier="quick", seed=0):
         r = seed % len(keys)
         keys = keys[r:] + keys[:r]
     results = []
-    with cf.ProcessPoolExecutor(max_workers=min(16, os.cpu_count() or 4, max(1, len(keys) + sum(len(n) for _, n in getattr(pm, 'SUBCHECKS', []))))) as ex:
+    # one fresh interpreter per job: the contract registry is process-global, and a sub-check may register a different contract for
+    # the same function (the *body* contract of protect_via_deepcopy against its caller-side contract) - a worker that had served
+    # such a job would hand the wrong contract to the next one
+    import multiprocessing
+    ctx = multiprocessing.get_context("spawn")
+    with cf.ProcessPoolExecutor(max_workers=min(16, os.cpu_count() or 4, max(1, len(keys) + sum(len(n) for _, n in getattr(pm, 'SUBCHECKS', [])))),
+                                mp_context=ctx, max_tasks_per_child=1) as ex:
         futs = [ex.submit(verify_target, (prop_mod, k, timeout_ms, 6)) for k in keys]
         # sub-checks: (props-like module, [contract class names]) verified under their own contract registry
         for sub_mod, names in getattr(pm, "SUBCHECKS", []):
@@ -166,7 +172,7 @@ def run_property(prop_mod, tier="quick", seed=0):
     # deliver is run again, one at a time, each in a fresh process of its own
     for job, e in lost:
         try:
-            with cf.ProcessPoolExecutor(max_workers=1) as ex1:
+            with cf.ProcessPoolExecutor(max_workers=1, mp_context=ctx, max_tasks_per_child=1) as ex1:
                 results.append(ex1.submit(verify_target, job).result(timeout=3600))
         except Exception as e2:
             results.append({"key": repr(job[1]), "error": "worker failed twice: %s / %s" % (e, e2), "obligations": []})
